@@ -1,6 +1,6 @@
 SPECIFICATION Spec
 CONSTANTS
-  Days = {0, 1}
+  Days <- MCDays
   Secs = {0, 86399}
   Micros = {0, 999999}
   MaxDepth = 3
